@@ -333,14 +333,15 @@ KeyDirs(cfg, fs, k) == {d \in DOMAIN fs.ents : IsWCacheDir(cfg, d) /\ k \in DOMA
 KeyIno(cfg, fs, k) == LET d == CHOOSE x \in KeyDirs(cfg, fs, k) : TRUE IN fs.inos[fs.ents[d][k]]
 PresentKeys(cfg, fs) == UNION {{n \in DOMAIN fs.ents[d] : IsKeyName(n) /\ fs.ents[d][n] # "DIR"} : d \in {x \in DOMAIN fs.ents : IsWCacheDir(cfg, x)}}
 \* C11: a sharded cache never holds two copies of one key
-OneCopy(cfg, s) == \A k \in PresentKeys(cfg, s.fs) : Cardinality(KeyDirs(cfg, s.fs, k)) <= 1
-\* C11: lookups return what the simple map predicts
 IsSeq(cfg) == Has(cfg, "seq") /\ cfg.seq
+\* (sequential use only: the documentation allows two copies after concurrent writes to a sharded cache)
+OneCopy(cfg, s) == IsSeq(cfg) => \A k \in PresentKeys(cfg, s.fs) : Cardinality(KeyDirs(cfg, s.fs, k)) <= 1
+\* C11: lookups return what the simple map predicts
 SeqMapOK(cfg, s, e) ==
     IsSeq(cfg) /\ e.e = "obs" /\ e.p \in DOMAIN s.cur /\ Has(s.cur[e.p], "key") /\ e.api \in {"get", "touch"} /\ Get(s.lastok, e.p, FALSE) =>
         LET k == s.cur[e.p].key r == s.lastret[e.p] IN
         IF k \in DOMAIN s.absmap THEN
-            IF e.api = "get" THEN r.res = "some" /\ Has(e, "handle") /\ Has(e.handle.c, "val") /\ e.handle.c.val = s.absmap[k]
+            IF e.api = "get" THEN r.res = "some" /\ Has(e, "handle") /\ Has(e.handle.c, "val") /\ (e.handle.c.val = s.absmap[k] \/ s.absmap[k] = "?")
             ELSE r.res = "true"
         ELSE IF Has(cfg, "rokeys") /\ k \in SeqSet(cfg.rokeys) THEN TRUE
         ELSE r.res \in {"none", "false"}
